@@ -4,7 +4,7 @@ import ast
 from fractions import Fraction as F
 
 from .. import assemblers as A
-from .. import bary, rwgdofs, shapesets as S, sparse, spaces, symex
+from .. import bary, p1dofs, rwgdofs, shapesets as S, sparse, spaces, symex
 from ..alg import V, vsum
 from ..core import AnalysisError
 from ..src import arg_names, unparse
@@ -245,6 +245,7 @@ def run(ctx):
     c06.piola(ctx)
     spaces.rwg_sign_rule(ctx)
     rwgdofs.rwg_dof_decisions(ctx)
+    p1dofs.p1_dof_decisions(ctx)
     spaces.normal_multipliers(ctx)
     spaces.coefficient_maps(ctx)
     c16.colouring(ctx)
